@@ -689,6 +689,9 @@ func normalizeLabel(label any) (any, bool) {
 	case int64:
 		label = int64(v)
 	case uint:
+		if uint64(v) > 1<<63-1 {
+			return nil, false
+		}
 		label = int64(v)
 	case uint8:
 		label = int64(v)
@@ -697,6 +700,9 @@ func normalizeLabel(label any) (any, bool) {
 	case uint32:
 		label = int64(v)
 	case uint64:
+		if v > 1<<63-1 {
+			return nil, false
+		}
 		label = int64(v)
 	case string:
 		// no conversion
